@@ -426,6 +426,11 @@ class SNum(Sym):
             return NotImplemented
         if not _is_num(o):
             return NotImplemented
+        if isinstance(o, float) and (o != o or o in (float("inf"), float("-inf"))):
+            # a symbolic value is finite: compare against +-inf / nan concretely
+            if o != o:
+                return f(1.0, float("nan"))
+            return f(0.0, o)
         a, b = _coerce2(self, o)
         return _lift(z3.simplify(f(a, b)))
 
